@@ -68,8 +68,9 @@ func (e *Eng) packResults(c *ssa.CallCommon, rs []*Val) *Val {
 }
 
 func (e *Eng) execCallWith(fr *Frame, ins ssa.Instruction, c *ssa.CallCommon, fnv *Val, args []*Val, st *State, g string, isDefer bool) *Val {
+	e.siteSetsWhen(fr, "call", calleeName(c), st, g, nil, true)
 	res := e.execCallInner(fr, ins, c, fnv, args, st, g, isDefer)
-	e.siteSets(fr, "call", calleeName(c), st, g, res)
+	e.siteSetsWhen(fr, "call", calleeName(c), st, g, res, false)
 	return res
 }
 
@@ -205,6 +206,11 @@ func (e *Eng) havocResults(c *ssa.CallCommon, st *State) *Val {
 
 func (e *Eng) havocThrough(st *State, a *Val) {
 	if a == nil || a.Typ == nil {
+		return
+	}
+	if a.Boxed != nil {
+		// an interface holding a pointer (e.g. the `out any` of a decoder): the callee may write through it
+		e.havocThrough(st, a.Boxed)
 		return
 	}
 	switch u := types.Unalias(a.Typ).Underlying().(type) {
@@ -493,6 +499,9 @@ func (e *Eng) applyFuncSpec(fr *Frame, fs *FuncSpec, callee *ssa.Function, c *ss
 		env = e.withLets(fs, env, st, old)
 	}
 	for _, en := range fs.Ensures {
+		if en.Internal {
+			continue
+		}
 		t := e.evalClauseEnv(en, env, st, old)
 		e.sc.assume(implies(g, t), "callee ensures "+key+"/"+en.Label)
 	}
@@ -560,16 +569,17 @@ func (e *Eng) applyIfaceSpec(fr *Frame, is *IfaceSpec, c *ssa.CallCommon, recv *
 }
 
 // siteSets: `at call <callee>: set $g := e` executed after the call (res = its result).
-func (e *Eng) siteSets(fr *Frame, kind, name string, st *State, g string, res *Val) {
+func (e *Eng) siteSetsWhen(fr *Frame, kind, name string, st *State, g string, res *Val, before bool) {
 	if fr.fspec == nil {
 		return
 	}
 	for _, s := range fr.fspec.Sites {
-		if s.Kind != kind || s.Callee != name || s.SetGhost == "" {
+		if s.Kind != kind || s.Callee != name || s.SetGhost == "" || s.Before != before {
 			continue
 		}
-		fr.descN["set:"+name+":"+s.SetGhost]++
-		if s.Ordinal != 0 && s.Ordinal != fr.descN["set:"+name+":"+s.SetGhost] {
+		ck := fmt.Sprintf("set:%s:%s:%p", name, s.SetGhost, s)
+		fr.descN[ck]++
+		if s.Ordinal != 0 && s.Ordinal != fr.descN[ck] {
 			continue
 		}
 		env := e.siteEnv(fr)
@@ -767,7 +777,35 @@ func (e *Eng) havocProtected(st *State, ls *LockSpec) {
 					if e.published[ref] {
 						continue
 					}
-					e.sc.assume(eq(sel(st.reg[r], ref), sel(before, ref)), "unpublished local object keeps its fields across lock acquisition")
+					pt := e.allocType[ref]
+					if pt == nil {
+						continue
+					}
+					if strings.HasPrefix(r, "C.") {
+						if cr, _ := e.cellRegion(pt); !isStructValue(pt) && cr == r {
+							e.sc.assume(eq(sel(st.reg[r], ref), sel(before, ref)), "unpublished local cell keeps its value across lock acquisition")
+						}
+						continue
+					}
+					if !isStructValue(pt) {
+						continue
+					}
+					// fields of the object itself and of its embedded structs
+					var walk func(t types.Type, ptr string)
+					walk = func(t types.Type, ptr string) {
+						s := structOf(t)
+						for i := 0; i < s.NumFields(); i++ {
+							ft := s.Field(i).Type()
+							if isStructValue(ft) {
+								walk(ft, e.subPtr(t, i, ptr))
+								continue
+							}
+							if fr, _ := e.fieldRegion(t, i); fr == r {
+								e.sc.assume(eq(sel(st.reg[r], ptr), sel(before, ptr)), "unpublished local object keeps its fields across lock acquisition")
+							}
+						}
+					}
+					walk(pt, ref)
 				}
 			}
 		}
